@@ -268,6 +268,23 @@ theorem workers_only_when_registered (v5 : Bool) (s : State) (hr : Reachable (fi
     s.registered = true :=
   (reachable_inv_invc hr).2.pReg0 rfl hp
 
+/-! ## 5b. tie of the join structure: what `serve()` in the tree starts and joins (regenerated on every run) -/
+
+/-- every goroutine `serve()` starts is followed by `Done()` on a WaitGroup that `serve()` waits for before the deferred
+    `internalClose`, the four per-connection goroutines are among them, and every WaitGroup's `Add` total equals the
+    number of goroutines that call its `Done` -/
+def joinedBeforeClose (gs : List (String × String)) (adds : List (String × Nat)) (waits : List String) : Bool :=
+  ["readLoop", "writeLoop", "pollMessageHandler", "readHandle"].all (fun f => gs.any (fun g => g.1 == f)) &&
+  gs.all (fun g => g.2 != "" && waits.contains g.2) &&
+  waits.all (fun wg => ((adds.filter (fun a => a.1 == wg)).map (·.2)).foldl (· + ·) 0 == (gs.filter (fun g => g.2 == wg)).length)
+
+/-- `serve_joins_all_goroutines`: in the tree the facts were extracted from, readLoop, writeLoop, pollMessageHandler and
+    readHandle are all joined (readWg / client.wg) before `internalClose` runs — the guards of the model's `sWaitRead` /
+    `sWaitWg` steps, on which `closed_after_goroutines_exit` and `stop_terminates` rest. A goroutine started with a bare
+    `go`, or an `Add` that does not match, breaks this proof. -/
+theorem serve_joins_all_goroutines :
+    joinedBeforeClose Generated.serveGoroutines Generated.serveAdds Generated.serveWaits = true := by decide
+
 /-! ## 6. lock order: the part that holds for every tree (the rest is in Properties/C15LockOrder.lean) -/
 
 /-- a path of ≥ 1 edges -/
